@@ -209,6 +209,18 @@ class SessGen(object):
                 for a in idx:
                     if a["type"] == 1 and a["off"] < e["off"] < a["end"]:
                         b[a["off"] + 4:a["off"] + 8] = (cut - a["off"] - 8).to_bytes(4, "big")
+        elif kind == "emptystring":
+            # a Text String / Byte String value made EMPTY (length 0, no value bytes), every enclosing length adjusted:
+            # a legal encoding that constructors guarding against empty values never see - it arrives through read()
+            ts = [e for e in inner if e["type"] in (7, 8) and e["len"] > 0 and e["depth"] >= 3]
+            if ts:
+                e = self.ch(ts)
+                gone = e["end"] - (e["off"] + 8)
+                b[e["off"] + 4:e["off"] + 8] = (0).to_bytes(4, "big")
+                del b[e["off"] + 8:e["end"]]
+                for a in idx:
+                    if a["type"] == 1 and a["off"] < e["off"] < a["end"]:
+                        b[a["off"] + 4:a["off"] + 8] = (a["len"] - gone).to_bytes(4, "big")
         elif kind == "textlen":
             ts = [e for e in inner if e["type"] in (7, 8)]
             if ts:
